@@ -43,7 +43,7 @@ PROBES = {
     'C16': ['redirect.301', 'redirect.302', 'redirect.303', 'redirect.307', 'redirect.308', 'cross_host_redirect', 'cross_scheme_redirect',
             'repeat_redirect_cross_host', 'userinfo_url', 'idn_host', 'ipv6_host', 'ipv4_host', 'nondefault_port', 'cookie_set',
             'cookie_sent', 'foreign_domain_cookie', 'auth_challenge', 'auth_sent', 'referer_https_to_http', 'encoded_path',
-            'relative_location', 'keepalive_reuse', 'proxy', 'proxy_absolute_form', 'proxy_connect'],
+            'relative_location', 'keepalive_reuse', 'proxy', 'proxy_absolute_form', 'proxy_connect', 'idle_close', 'followup_visit'],
     'C18': ['redirect_cycle', 'unbounded_chain', 'limit_reached', 'perpetual_401', 'missing_location', 'bad_location', 'max_redirect_0',
             'server_5xx', 'reset', 'stall_timeout', 'auth_retry'],
 }
@@ -250,7 +250,7 @@ def run(tape, prop, tier):
     if tape.chance(1, 3 if prop == 'C18' else 4, 'opt_login'):
         # --http-user / --http-password given together, or (legal) only one of them
         opt_login = tape.choice((('optuser', 'optpass'), (None, 'optpass'), ('', 'optpass'), ('optuser', '')), 'opt_login.kind') if prop == 'C18' else ('optuser', 'optpass')
-    use_proxy = prop == 'C16' and tape.chance(1, 4, 'use_proxy')
+    use_proxy = prop == 'C16' and tape.chance(1, 3, 'use_proxy')
     start = Target(tape)
     if tape.chance(1, 4, 'userinfo'):
         start.userinfo = (tape.choice(('user', 'us%40er', 'u%0D%0Ax', 'caf%C3%A9'), 'ui.user'), tape.choice(('pw', 'p%3Aw', 'p%0Aw'), 'ui.pw'))
@@ -281,6 +281,8 @@ def run(tape, prop, tier):
     h.done = False
     h.auth_retries = {}
     h.connects = []
+    h.visited_origins = []
+    h.conn_reqs = {}
     if use_proxy:
         r.probes['proxy'] += 1
     h.consecutive_auth = 0
@@ -299,6 +301,20 @@ def run(tape, prop, tier):
         conn.send(('\r\n'.join(hd) + '\r\n\r\n').encode('latin-1') + body)
         if close:
             conn.finish()
+        elif tape.chance(1, 3 if use_proxy else 6, 'idle_close'):
+            # keep-alive promised, but the peer (origin or proxy) closes the idle connection before the next request
+            after = tape.choice((0.0, 0.05, 0.3, 1.0, 3.0), 'idle_close.after')
+            seen = h.conn_reqs.get(conn.id, 0)
+
+            def idle_timeout():
+                if h.conn_reqs.get(conn.id, 0) == seen and not conn.server_closed:
+                    r.probes['idle_close'] += 1
+                    r.faults['peer_closes_idle_connection'] += 1
+                    conn.finish()
+            if after:
+                env.loop.call_later(after, idle_timeout)
+            else:
+                idle_timeout()
 
     def on_request(conn, oi, raw, proxied=None):
         method, target, version, fields, errors = parse_request(raw)
@@ -329,6 +345,9 @@ def run(tape, prop, tier):
         r.log('t=%.3f hop %d -> %s://%s:%d %r %r' % (env.loop.time(), hop, origin[0], origin[2], origin[4], raw.split(b'\r\n')[0][:120],
                                                  [(n, v[:50]) for n, v in fields if n in ('host', 'authorization', 'cookie', 'referer')]))
         h.requests.append((oi, method, target, fields, conn.id))
+        h.conn_reqs[conn.id] = h.conn_reqs.get(conn.id, 0) + 1
+        if oi not in h.visited_origins:
+            h.visited_origins.append(oi)
         for e in errors:
             r.violate('C16', 'malformed-request', 'grammar', 'hop %d: %s' % (hop, e))
         hop_kind = h.last_sched or 'first'
@@ -449,7 +468,12 @@ def run(tape, prop, tier):
                 return
             if hop - len(h.challenged) < h.chain_len:
                 code = tape.choice((301, 302, 303, 307, 308), 'redir.code')
-                redirect(code, Target(tape))
+                if use_proxy and h.visited_origins and tape.chance(1, 2, 'redir.revisit'):
+                    # back to an origin visited earlier: its pooled connection (direct or through the proxy) is reused, or
+                    # found closed by the peer and re-established
+                    redirect(code, Target(tape, origin=h.visited_origins[tape.draw(len(h.visited_origins), 'redir.revisit.o')]))
+                else:
+                    redirect(code, Target(tape))
             else:
                 final(200 if not tape.chance(1, 8, 'final404') else 404)
         elif strategy == 'cycle':
@@ -580,6 +604,28 @@ def run(tape, prop, tier):
                     result['error'] = 'OTHER ' + repr(e)[:200]
                     result['error_type'] = 'OTHER'
                 result['loops'] = n
+                h.first_visit_nreq = len(h.requests)
+                # follow-up visits after a pause: pooled connections sat idle (and may have been closed by the peer)
+                if prop == 'C16' and result.get('ok') and h.visited_origins and tape.chance(1, 3, 'followup'):
+                    for _ in range(tape.between(1, 2, 'followup.n')):
+                        yield from asyncio.sleep(tape.choice((0.2, 2.0, 10.0, 45.0), 'followup.pause'))
+                        tgt = Target(tape, origin=h.visited_origins[tape.draw(len(h.visited_origins), 'followup.origin')], simple=True)
+                        h.expected = tgt
+                        h.last_sched = 'follow-up-visit'
+                        h.done = False
+                        r.probes['followup_visit'] += 1
+                        req2 = request_factory('%s://%s%s' % (tgt.scheme, tgt.host_header, tgt.wire_target))
+                        if opt_login:
+                            req2.username, req2.password = opt_login
+                        s2 = web_client.session(req2)
+                        try:
+                            with s2:
+                                while not s2.done():
+                                    yield from s2.start()
+                                    yield from s2.download(io.BytesIO())
+                        except (NetworkError, ProtocolError) as e:
+                            result['followup_error'] = type(e).__name__
+                            break
 
             try:
                 env.run(visit())
@@ -595,7 +641,7 @@ def run(tape, prop, tier):
     finally:
         simset.set_tape(None)
     # ---- C18: bounded work for one visit
-    nreq = len(h.requests)
+    nreq = getattr(h, 'first_visit_nreq', len(h.requests))
     # authentication retries: at most one in a row for the same URL
     auth_retries = 0
     answers = [hp.get('answer', '') for hp in workload['hops']]
